@@ -28,7 +28,7 @@ PROPS = {
 
 PROPS["C16"] = dict(
     lean_modules=["QuaiVerif.Props.C16"],
-    areas=[dict(name="addr", n_quick=400, n_thorough=6000, seeds_thorough=3, n_search=2000),
+    areas=[dict(name="addr", spec_ops=("filter",), n_quick=400, n_thorough=6000, seeds_thorough=3, n_search=2000),
            dict(name="utxo", n_quick=300, n_thorough=6000, seeds_thorough=2, n_search=1500)],
     rule="a case is one node location plus 10-40 operations over byte strings of length 0-40 biased to the location prefix byte, the 127/128 ledger "
          "boundary and all-zero addresses: every constructor/decoder (bytes, bytes20, hex, proto, scan, pubkey, CREATE, CREATE2, RLP, JSON, text), scope "
@@ -50,7 +50,7 @@ def state_preamble(facts, impl):
 PROPS["C12"] = dict(
     lean_modules=["QuaiVerif.Props.C12"],
     areas=[dict(name="state", n_quick=3000, n_thorough=40000, seeds_thorough=3, n_search=2500, preamble=state_preamble),
-           dict(name="lockup", n_quick=600, n_thorough=12000, seeds_thorough=2, n_search=2500, preamble=lockup_preamble)],
+           dict(name="lockup", spec_ops=("claim",), n_quick=600, n_thorough=12000, seeds_thorough=2, n_search=2500, preamble=lockup_preamble)],
     facts=["suicide_restores_size", "journal_reverts"],
     rule="a case is a committed pre-state (accounts with balance/nonce/code/storage, so size counters > 0) plus 5-60 journalled mutator calls "
          "with nested Snapshot/RevertToSnapshot frames (depth <= 6) on the real StateDB; after each revert the full dump and the IntermediateRoot of a copy "
@@ -67,7 +67,7 @@ PROPS["C05"] = dict(
     lean_modules=["QuaiVerif.Props.C05"],
     areas=[dict(name="evm", n_quick=2500, n_thorough=40000, seeds_thorough=3, n_search=8000),
            dict(name="c07", n_quick=2, n_thorough=12, seeds_thorough=2, n_search=6, timeout=3000),
-           dict(name="lockup", n_quick=600, n_thorough=12000, seeds_thorough=2, n_search=2500, preamble=lockup_preamble)],
+           dict(name="lockup", spec_ops=("claim",), n_quick=600, n_thorough=12000, seeds_thorough=2, n_search=2500, preamble=lockup_preamble)],
     facts=["etx_exits"],
     rule="a case is one real interpreter run: (etx/conv) a contract executing one ETX / CONVERT with generated destination, value, gas limit, tip/fee cap or gas "
          "price (incl. zero and near-2^256 values), balance around the total, ETX-cache length (incl. 65535..65537), valid/malformed/empty access-list blob, "
@@ -184,7 +184,7 @@ PROPS["C20"] = dict(
 
 PROPS["C13"] = dict(
     lean_modules=["QuaiVerif.Props.C13", "QuaiVerif.Props.C13b", "QuaiVerif.Props.C13c", "QuaiVerif.Props.C13d"],
-    areas=[dict(name="lockup", n_quick=600, n_thorough=12000, seeds_thorough=3, n_search=2500, preamble=lockup_preamble), dict(name="c13chain", spec_ops=("tdisc", "split"), n_quick=4, n_thorough=40, seeds_thorough=3, n_search=10, timeout=3000),
+    areas=[dict(name="lockup", spec_ops=("claim",), n_quick=600, n_thorough=12000, seeds_thorough=3, n_search=2500, preamble=lockup_preamble), dict(name="c13chain", spec_ops=("tdisc", "split"), n_quick=4, n_thorough=40, seeds_thorough=3, n_search=10, timeout=3000),
            dict(name="c07", n_quick=2, n_thorough=12, seeds_thorough=2, n_search=6, timeout=3000)],
     facts=["lockup_undo_uses_old_delegate", "revert_restores_lockup_batch"],
     rule="[c13chain] a case is one 36-block history of the real zone node (see C06) in which three reward-only Quai addresses that exist from genesis and two that do not exist yet receive coinbases (lock bytes 0-3, as miner coinbase and as inbound coinbase ETXs, incl. groups of 2-3 that unlock together with amounts just below / at / above the account-creation fee) and Qi->Quai conversions and never transact; after every block their balances (and, for the new ones, their existence) are compared with the model and with an independent replay of matured rewards. [lockup] a case is one multi-block history on a real block batch (pending mode, committed at block boundaries) of 6-30 operations over 2 owner contracts x 2 miners "
@@ -263,7 +263,8 @@ NOT_APPLICABLE = {}
 PROPS["C06"] = dict(
     lean_modules=["QuaiVerif.Props.C06", "QuaiVerif.Props.C06b"],
     areas=[dict(name="c06", n_quick=6, n_thorough=40, seeds_thorough=3, n_search=12, timeout=3000),
-           dict(name="snap", n_quick=400, n_thorough=20000, seeds_thorough=3, n_search=3000)],
+           dict(name="snap", n_quick=400, n_thorough=20000, seeds_thorough=3, n_search=3000),
+           dict(name="lockup", spec_ops=("claim",), n_quick=600, n_thorough=12000, seeds_thorough=2, n_search=2500, preamble=lockup_preamble)],
     rule="a case is one 40-block history of a real zone node (core.Slice, blake3pow, blocks assembled by its own worker and mined by the harness): Quai "
          "transfers, contract deployment and storage writes, Qi spends (1-3 inputs, musig), Quai->Qi conversions, lockup-contract claims incl. reverting "
          "ones through the real tx pool; region blocks at which the harness, playing the dominant chains, hands over inbound ETXs (own coinbase / conversion / "
@@ -381,14 +382,16 @@ PROPS["C08"] = dict(
          "CheckWorkThreshold - difficulties 0, -1, 1, 2, 3, 2^255, 2^256-1, 2^256, 2^256+1, 2^300, random 1-24 bit values, one really mined header - "
          "then every setter of WorkObjectHeader (except nonce / mix hash / AuxPoW) and of the body Header applied to a copy: if the encoding changes the "
          "seal hash resp. header hash must change; per run 2 (thorough: 12) KAWPOW nonce triples (n, n with a high bit flipped, n with a low bit flipped) "
-         "through ComputePowLight against the cache-free share verifier",
+         "through ComputePowLight against the cache-free share verifier; once per run, on a real region chain, a header carrying the AuxPoW proof made for "
+         "another header (prime terminus = activation block, +1, later) through VerifyHeader",
     level_text="'accepted seal <=> hash <= floor(2^256 / difficulty)' with 'hash * difficulty <= 2^256', monotonicity in difficulty, the boundary values and "
                "'a seal is a work share' are Lean theorems; 'the seal pre-image covers every consensus field of the sealed header', 'the contained header hash "
                "covers every field of the body header' and 'ValidateBody ties the roots to the body' are theorems over tables regenerated from SealEncode, the "
                "struct definitions and ValidateBody; the arithmetic is run against the real functions on real hashes.",
-    level_note="PARTIAL: the AuxPoW acceptance rules (donor coinbase commits to the seal hash, merkle branch, template signature; verifyHeader's AuxPoW branch) "
-               "are not exercised: building donor headers with valid template signatures needs the signing keys; those rules are covered only by the T1 "
-               "table (SealHash / MerkleRoot / VerifySignature appear among verifyHeader's rejecting comparisons, see C09's fact). Collision resistance of "
+    level_note="PARTIAL: of the AuxPoW acceptance rules only the first - the donor coinbase commits to this header's seal hash - is exercised on real code "
+               "(a header carrying the donor proof made for another header must be refused on a real region chain, at the activation block and after); the "
+               "merkle branch and the template signature are not: building donor headers with valid template signatures needs the signing keys; those rules "
+               "are covered only by the T1 table (SealHash / MerkleRoot / VerifySignature appear among verifyHeader's rejecting comparisons, see C09's fact). Collision resistance of "
                "blake3 / keccak and the KAWPOW / ProgPoW kernels themselves are trusted; only the caching around KAWPOW is tested.",
     assumptions=["the hash functions are collision resistant", "protobuf encoding of the seal pre-image is injective on its fields (C14)"],
 )
